@@ -478,8 +478,8 @@ def run_cfg_after_r5(ctx, p, cfg):
         idx = [x for x in walk(a0) if x[0] == "index"]
         r.require(bool(idx) and deep_strip(idx[0][1]) == ("param", 3) and any(x[0] == "as" and x[2] == "Some" for x in walk(idx[0][2])), "indexes-table-with-loop-item", fn=nl, site=ds.at, detail="receiver %s" % show(a0, 6))
         r.require(deep_strip(ds.arg(1)) == ("param", 2), "delivers-the-record", fn=nl, detail="record passed through")
-        gate = [(si, al) for sb, si, al in nl.conditions(ds.block) if strip(si.discr)[0] == "call" and strip(si.discr)[1] == pred.path]
-        r.require(len(gate) == 1 and {gate[0][0].label(v) for v, _ in gate[0][1]} == {True}, "gated-by-threshold", fn=nl, detail="loop is control-dependent on enabled(record.level())")
+        gate = [(si, al, want) for sb, si, al, d_, want in common.threshold_gates(nl, ds.block, pred)]
+        r.require(len(gate) == 1 and {gate[0][0].label(v) for v, _ in gate[0][1]} == {gate[0][2]}, "gated-by-threshold", fn=nl, detail="loop is control-dependent on enabled(record.level())")
         # nothing else delivers: no other call reaching dyn Append in the function
         oth = [c.callee for c in nl.calls() if c.callee == "append::Append::append"]
         r.require(not oth, "no-direct-delivery", fn=nl, detail="direct Append::append calls in the node's log(): %s" % oth)
